@@ -259,6 +259,27 @@ impl WorldC {
         for j in 0..n {
             w.new_client(j);
         }
+        // optional scripted opening, emitted through gen() as ordinary recorded operations: the twin race. Client 0 connects
+        // (first table slot); client 1 requests, is challenged and answers, but its answer stays in flight and the client
+        // crashes; it comes back from the address of slot 2 under its old identity and requests again (two half-open entries
+        // for one identity); the old answer arrives (session in the second table slot); client 0 is disconnected by the
+        // application (first table slot free again); only then the returned client answers its own challenge
+        if cfg.get("twin") == 1 && n == 3 {
+            let q = &mut w.warm_queue;
+            let t = |q: &mut VecDeque<Op>, j: u64, dt: u64| q.push_back(Op::new(K_TICKCLIENT, j, dt, 0, 0));
+            let sv = |q: &mut VecDeque<Op>| q.push_back(Op::new(K_TICKSERVER, 16, 0, 0, 0));
+            let up = |q: &mut VecDeque<Op>, j: u64| q.push_back(Op::new(K_DELIVERALL, j, 0, 0, 0));
+            let down = |q: &mut VecDeque<Op>, j: u64| q.push_back(Op::new(K_DELIVERALL, j, 1, 0, 0));
+            t(q, 0, 100); up(q, 0); sv(q); down(q, 0); t(q, 0, 16); up(q, 0); sv(q); down(q, 0); t(q, 0, 16); up(q, 0); sv(q);
+            t(q, 1, 100); up(q, 1); sv(q); down(q, 1); t(q, 1, 16);
+            q.push_back(Op::new(K_CRASH, 1, 0, 0, 0));
+            q.push_back(Op::new(K_REJOIN, 1, 2, 0, 0));
+            t(q, 2, 100); up(q, 2); sv(q);
+            up(q, 1); sv(q);
+            q.push_back(Op::new(K_DISCONNECT, 0, 0, 0, 0));
+            sv(q);
+            down(q, 2); t(q, 2, 16); up(q, 2); sv(q);
+        }
         // optional warm-up: clean rounds chosen by the configuration, emitted through gen() so they are part of the recorded trace
         for _ in 0..cfg.get("warm") {
             for j in 0..n {
@@ -371,6 +392,9 @@ pub fn gen_cfg(family: &str, rng: &mut Rng) -> Cfg {
     cfg.set("unsecure", *rng.pick(&[0u64, 0, 0, 1]));
     cfg.set("spoof", *rng.pick(&[0u64, 0, 0, 0, 1]));
     cfg.set("setmax", *rng.pick(&[0u64, 0, 1]));
+    // the twin race, scripted at the start of the run (see WorldC::new)
+    let twin = if cfg.get("nslots") == 3 && rng.chance(1, 5) { 1 } else { 0 };
+    cfg.set("twin", twin);
     let _ = BTreeSet::<u8>::new();
     cfg
 }
